@@ -28,7 +28,7 @@ INVARIANTS = ["TypeOK", "ResultIsLastStageOutput", "RcPolicy", "NotFoundIsAnErro
 ACTIONS = ["Spawn", "SpawnFail", "Return", "ReadStdin", "StageRead", "StageEmit", "StageWake", "StageEnd", "StageEpipe",
            "StageKill", "Tick"]
 BOOL = [False, True]
-PARAMS = dict(T=0.25, TL=6, S=1.6, WD=3.2, OVER=1.1)
+PARAMS = dict(T=0.2, TL=6, S=1.2, WD=2.8, OVER=0.9, GRACE=0.4)
 
 
 def fam(**kw):
@@ -49,8 +49,9 @@ FAMILIES = {
         ("out", fam(RdK=["no", "drain", "pass"], Outs=["", "p", "pb"], Errs=BOOL,
                     Apis=["call", "pipe", "shell", "connect"], Splits=BOOL)),
         # timeouts: slow stages anywhere, both signals, with and without keep_rc
-        ("tmo", fam(Rcs=["0", "1"], Slows=BOOL, Apis=["call", "connect"], Keeps=BOOL, Tmos=["none", "arg"],
-                    Sigs=["KILL", "TERM"])),
+        ("tmo", fam(Rcs=["0", "1"], Slows=BOOL, Apis=["call", "connect"], Keeps=BOOL, Tmos=["arg"], Sigs=["KILL", "TERM"])),
+        # the control: without a timeout slow stages run to their end
+        ("notmo", fam(Slows=BOOL, Apis=["call", "connect"])),
         # which timeout applies: argument / context default / both
         ("tmoctx", fam(Slows=BOOL, Apis=["shell", "prov"], Keeps=BOOL, Tmos=["none", "arg", "ctx", "both"],
                        Envs=["none", "safe"], Flts=["none", "hit"], Forms=["list", "str"])),
@@ -77,7 +78,8 @@ FAMILIES["thorough"].update([
     ("out", fam(MaxN=3, MaxOdd=2, RdK=["no", "drain", "pass"], Outs=["", "p", "b", "pp", "pb", "bp"], Errs=BOOL,
                 Apis=["call", "pipe", "write", "shell", "connect"], Splits=BOOL)),
     ("tmo", fam(MaxN=3, MaxOdd=2, Rcs=["0", "1"], Slows=BOOL, Apis=["call", "pipe", "write", "connect"], Keeps=BOOL,
-                Tmos=["none", "arg"], Sigs=["KILL", "TERM"])),
+                Tmos=["arg"], Sigs=["KILL", "TERM"])),
+    ("notmo", fam(MaxN=3, Slows=BOOL, Apis=["call", "write", "connect"], Keeps=BOOL)),
     ("tmoctx", fam(Slows=BOOL, Rcs=["0", "2"], Apis=["shell", "prov"], Keeps=BOOL, Tmos=["none", "arg", "ctx", "both"],
                    Sigs=["KILL", "TERM"], Envs=["none", "safe"], Flts=["none", "hit", "miss"], Forms=["list", "str"])),
     ("stdin", fam(MaxN=3, Rd1=["no", "drain", "pass"], RdK=["no", "drain", "pass"],
@@ -96,31 +98,37 @@ FAMILIES["thorough"].update([
 DESIGN = fam(Mechs=["intended"], MaxN=2, Rd1=["no", "pass"], RdK=["no", "pass"], Outs=["p", "L"], Rcs=["0", "1", "nf"], Slows=BOOL,
              Apis=["call", "connect"], Tmos=["none", "arg"])
 # the transcription of the code on the classes of cases it is known to mishandle: TLC must refute these
-R = dict(MaxN=2, Rd1=["no", "drain"], RdK=["no", "pass"], Outs=["p", "L"], Rcs=["0", "1", "nf"], Slows=BOOL,
-         Apis=["call", "connect"], Keeps=BOOL, Tmos=["none", "arg"], Envs=["none", "given"], Bares=BOOL, Mechs=["code"])
+R = dict(MaxN=2, Rd1=["no", "drain"], RdK=["no", "pass"], Outs=["p", "L", "pb"], Rcs=["0", "1", "nf"], Slows=BOOL,
+         Apis=["call", "connect"], Tmos=["none", "arg"], Envs=["given"], Bares=BOOL, Mechs=["code"])
+# class -> (invariant of the single-class refutation cfg, statements the transcription must be seen to break on
+# cases that belong to that class only)
 REFUTE = collections.OrderedDict([
-    ("earlyfail", ("F_RcPolicy", "RcPolicy", fam(Admit=["earlyfail"], **R))),
-    ("lateslow", ("F_TimeoutTerminates", "TimeoutTerminates", fam(Admit=["lateslow"], **R))),
-    ("unread-running", ("F_NoneRunning", "NoneRunningAtReturn", fam(Admit=["unread"], **R))),
-    ("unread-stuck", ("F_NothingStuck", "NothingStuck", fam(Admit=["unread"], **R))),
-    ("unread-hang", ("F_Terminates", "Terminates", fam(Admit=["unread"], **R))),
-    ("nflater-left", ("F_NotFoundLeft", "NoneRunningAtReturn", fam(Admit=["nflater"], **R))),
-    ("nflater-hang", ("F_Terminates", "Terminates", fam(Admit=["nflater"], **R))),
-    ("streamstdin", ("F_Stdin", "NeverReadsCallerStdin", fam(Admit=["streamstdin"], **R))),
-    ("streambin", ("F_StreamEqualsCall", "StreamEqualsCall",
-                   fam(Admit=["streambin"], **dict(R, Outs=["p", "pb"])))),
-    ("streampath", ("F_Env", "EnvIsControlled", fam(Admit=["streampath"], **R))),
-    ("unwaited", ("F_AllReaped", "AllReaped", fam(Admit=["unwaited"], **R))),
+    ("earlyfail", ("F_RcPolicy", ["RcPolicy"])),
+    ("lateslow", ("F_TimeoutTerminates", ["TimeoutTerminates"])),
+    ("unread", ("F_NoneRunning", ["NoneRunningAtReturn", "NothingStuck", "Terminates"])),
+    ("nflater", ("F_NotFoundLeft", ["NoneRunningAtReturn", "Terminates"])),
+    ("streamstdin", ("F_Stdin", ["NeverReadsCallerStdin"])),
+    ("streambin", ("F_StreamEqualsCall", ["StreamEqualsCall"])),
+    ("streampath", ("F_Env", ["EnvIsControlled"])),
+    ("unwaited", ("F_AllReaped", ["AllReaped"])),
 ])
+ALLOWED_BROKEN = set(x for _, (_, invs) in REFUTE.items() for x in invs)
+
+
+def refute_cfg_text():
+    c = fam(Admit=list(REFUTE), **R)
+    text = cfg_text(c, [], False).replace("CHECK_DEADLOCK FALSE\n", "")
+    return text + "CONSTRAINT Witness\nPOSTCONDITION PostWitness\nCHECK_DEADLOCK FALSE\n"
+
 
 ASSUMPTIONS = [
     "a pipeline has 1..3 stages; every stage is a generated sh script with one of the abstract behaviours (stdin: "
     "ignore / drain / copy; 0..2 own lines of kinds plain / not UTF-8 / 70000 characters; one stderr line; exit 0 1 2 "
     "127, death by SIGTERM, command absent; sleeping 1.6 s); real commands with other behaviours (closing stdout early, "
     "daemonising, leaving their process group) are outside the model",
-    "time is three instants (before the timeout, timeout expired, slow stages wake): timeouts are 0.25 s, slow stages "
-    "sleep 1.6 s, everything else is assumed to finish in between; the verdict on timeouts rests on marker files "
-    "(a slow stage that reached its end) and on a coarse wall-clock class (>= 1.1 s)",
+    "time is three instants (before the timeout, timeout expired, slow stages wake): timeouts are 0.2 s, slow stages "
+    "sleep 1.2 s, everything else is assumed to finish in between; the verdict on timeouts rests on marker files "
+    "(a slow stage that reached its end) and on a coarse wall-clock class (>= 0.9 s)",
     "the tools the model abstracts (`timeout -s KILL/TERM`, sh exit statuses with and without the wrapper, SIGPIPE, "
     "the pipe buffer being smaller than a long line, grep -F on the line kinds) are measured in every driver process "
     "and compared with the model's table; a difference is a machinery failure, not a verdict",
@@ -162,10 +170,12 @@ def write_cfgs():
             f.write(cfg_text(c, INVARIANTS, True))
     with open(os.path.join(lib.SPECS, "CommandExec_design.cfg"), "w") as f:
         f.write(cfg_text(DESIGN, INVARIANTS, False))
-    for name, (inv, stated, c) in REFUTE.items():
-        with open(os.path.join(lib.SPECS, "CommandExecMC_refute_%s.cfg" % name.replace("-", "_")), "w") as f:
-            f.write("\\* the transcription of the code with the class admitted: TLC is EXPECTED to refute %s\n" % stated
-                    + cfg_text(c, [inv], False))
+    for name, (inv, stated) in REFUTE.items():
+        with open(os.path.join(lib.SPECS, "CommandExecMC_refute_%s.cfg" % name), "w") as f:
+            f.write("\\* the transcription of the code with the class admitted: TLC is EXPECTED to refute %s\n" % stated[0]
+                    + cfg_text(fam(Admit=[name], **R), [inv], False))
+    with open(os.path.join(lib.SPECS, "CommandExecMC_refute_all.cfg"), "w") as f:
+        f.write("\\* all refutations in one run (-workers 1): witnesses are printed by the POSTCONDITION\n" + refute_cfg_text())
 
 
 _COV = re.compile(r"^<(\w+) line \d+, col \d+ to line \d+, col \d+ of module \w+(?: \([\d ]+\))?>: (\d+):(\d+)")
@@ -196,9 +206,7 @@ def model_runs(tier, fams):
     for name, c in fams.items():
         jobs.append((name, "CommandExecMC", wr("mc_%s.cfg" % name, cfg_text(c, INVARIANTS, True)),
                      dict(workers=2, raw_cases=True), True))
-    for name, (inv, _, c) in REFUTE.items():
-        jobs.append(("refute-" + name, "CommandExecMC", wr("refute_%s.cfg" % name, cfg_text(c, [inv], False)),
-                     dict(workers=1), False))
+    jobs.append(("refute", "CommandExecMC", wr("refute_all.cfg", refute_cfg_text()), dict(workers=1), True))
 
     def one(job):
         name, module, cfgp, kw, must_hold = job
@@ -211,19 +219,28 @@ def model_runs(tier, fams):
     with concurrent.futures.ThreadPoolExecutor(max_workers=5) as ex:
         for name, r in ex.map(one, jobs):
             res[name] = r
+    # the refutations: with every class admitted, each class must have a witness of its own for each statement
+    wit = [p for k, p in res["refute"].printed if k == "ACC" and "witnesses" in p]
+    if not wit:
+        raise lib.MachineryError("the refutation run printed no witnesses")
+    wit = wit[0]["witnesses"]
     refuted = {}
-    for name, (inv, stated, _) in REFUTE.items():
-        r = res["refute-" + name]
-        if r.violation != inv:
-            raise lib.MachineryError("the transcription of the code with class '%s' admitted was expected to violate %s; TLC "
-                                     "says violation=%s error=%s\n%s" % (name, inv, r.violation, r.error,
-                                                                        "\n".join(r.out.splitlines()[-30:])))
-        refuted[name] = dict(invariant=stated, refuted=True, states=r.generated)
+    for name, (_, stated) in REFUTE.items():
+        for inv in stated:
+            own = [w for w in wit if w["inv"] == inv and set(w["classes"]) == (set() if name == "unwaited" else {name})]
+            if not own:
+                raise lib.MachineryError("the transcription of the code was expected to violate %s on a case of class '%s' "
+                                         "alone; witnesses: %s" % (inv, name, [w for w in wit if w["inv"] == inv][:5]))
+            refuted["%s/%s" % (name, inv)] = dict(witnesses=len(own), apis=sorted(set(w["api"] for w in own)))
+    stray = sorted(set(w["inv"] for w in wit) - ALLOWED_BROKEN)
+    if stray:
+        raise lib.MachineryError("the transcription of the code breaks statements no class accounts for: %s %s"
+                                 % (stray, [w for w in wit if w["inv"] in stray][:5]))
     res["design"].coverage = action_coverage(res["design"])
     missing = [a for a in ACTIONS if not res["design"].coverage.get(a)]
     if missing:
         raise lib.MachineryError("vacuity: actions never taken in the design model: %s" % missing)
-    tool_models = [p for k, p in res["design"].printed if k == "ACC"]
+    tool_models = [p for k, p in res["design"].printed if k == "ACC" and "kill" in p]
     if not tool_models:
         raise lib.MachineryError("the model did not print its tool table")
     return res, refuted, tool_models[0]
@@ -251,14 +268,26 @@ def collect_cases(fams, res):
 
 def cost(c):
     """expected wall time of a case (for spreading the slow ones over the driver processes; not a judgement)"""
-    slow = any(b["slow"] for b in c["st"])
-    big = any("L" in b["out"] for b in c["st"]) or any(b["rc"] == "nf" for b in c["st"])
-    return (PARAMS["S"] if slow else 0.0) + (1.0 if big and c["api"] in ("connect", "provs") else 0.0) + 0.02
+    st = c["st"]
+    stream = c["api"] in ("connect", "provs")
+    slow = [i for i, b in enumerate(st) if b["slow"]]
+    nf = any(b["rc"] == "nf" for b in st)
+    big = any("L" in b["out"] for b in st)
+    unread = any(b["rd"] == "no" for b in st[1:])
+    t = 0.03
+    if slow:
+        if c["tmo"] == "none" or (not stream and any(i > 0 for i in slow)):
+            t += PARAMS["S"]
+        else:
+            t += PARAMS["T"]
+    if big and (unread or nf):
+        t += (PARAMS["T"] if c["tmo"] != "none" else PARAMS["WD"]) if stream else PARAMS["GRACE"]
+    return t
 
 
 def execute(cases, tier):
     base = lib.subdir("x03w")
-    jobs = 8 if lib.NCPU >= 8 else 4
+    jobs = 12 if lib.NCPU >= 16 else 8 if lib.NCPU >= 8 else 4      # the driver processes mostly sleep
     nproc = jobs * 2
     rng = random.Random(lib.seed())
     order = sorted(cases, key=lambda c: -cost(c))
@@ -393,7 +422,7 @@ def selftests(traces):
         if plain and not tm["watchdog"]:
             add("watchdog", t, "time", "Terminates:ended-by-the-watchdog", lambda e: e.update(watchdog=True))
         _, af = ev_of(t, "after")
-        if plain and af["settled"] == dict(running=0, zombies=0, fds=0) and res["kind"] == "ret":
+        if plain and af["settled"] == dict(running=0, zombies=0, fds=0) and af["now"] == af["settled"] and res["kind"] == "ret":
             add("process-left", t, "after", "NoLeftovers:process-still-running", lambda e: e["settled"].update(running=1))
             add("descriptor-left", t, "after", "NoLeftovers:descriptor-left-open", lambda e: e["settled"].update(fds=1))
             add("zombie-left", t, "after", "NoLeftovers:child-never-waited-for", lambda e: e["settled"].update(zombies=1))
@@ -532,8 +561,8 @@ def run(prop, tier):
     fams = FAMILIES[tier]
     res, refuted, tool_model = model_runs(tier, fams)
     cases, emitted = collect_cases(fams, res)
-    models = [r for n, r in res.items() if not n.startswith("refute-")]
-    print("timing: models %.1fs (%d states in %d runs + %d refutations), %d cases to replay %s"
+    models = list(res.values())
+    print("timing: models %.1fs (%d states in %d runs, %d refutations), %d cases to replay %s"
           % (time.time() - t0, sum(m.distinct for m in models), len(models), len(refuted), len(cases), emitted))
     t1 = time.time()
     traces, stats, tools = execute(cases, tier)
